@@ -59,7 +59,17 @@ fn reason_class(r: &str) -> &'static str {
 }
 
 fn balance(rec: &TxRec, utxos: &BTreeMap<String, Vec<Utxo>>) -> Option<String> {
-    // consumed + mint = produced + fee, asset class by asset class
+    let net = balance_net(rec, utxos)?;
+    if net.is_empty() {
+        None
+    } else {
+        Some(format!("consumed + minted - produced - fee = {:?}", net.iter().map(|((p, n), v)| format!("{}.{}:{v}", hex::encode(&p[..2.min(p.len())]), String::from_utf8_lossy(n))).collect::<Vec<_>>()))
+    }
+}
+
+/// consumed + mint + withdrawals - produced - fee - donation per asset class, zero entries dropped (None when an
+/// amount of the transaction does not fit the arithmetic)
+fn balance_net(rec: &TxRec, utxos: &BTreeMap<String, Vec<Utxo>>) -> Option<BTreeMap<(Vec<u8>, Vec<u8>), i128>> {
     let mut net: BTreeMap<(Vec<u8>, Vec<u8>), i128> = BTreeMap::new();
     for (name, us) in utxos {
         if name == "collateral" {
@@ -89,12 +99,13 @@ fn balance(rec: &TxRec, utxos: &BTreeMap<String, Vec<Utxo>>) -> Option<String> {
         }
     }
     *net.entry((vec![], vec![])).or_insert(0) -= rec.fee as i128;
-    net.retain(|_, v| *v != 0);
-    if net.is_empty() {
-        None
-    } else {
-        Some(format!("consumed + minted - produced - fee = {:?}", net.iter().map(|((p, n), v)| format!("{}.{}:{v}", hex::encode(&p[..2.min(p.len())]), String::from_utf8_lossy(n))).collect::<Vec<_>>()))
+    // withdrawals are consumed, a treasury donation is spent
+    for (_, n) in &rec.withdrawals {
+        *net.entry((vec![], vec![])).or_insert(0) += *n as i128;
     }
+    *net.entry((vec![], vec![])).or_insert(0) -= rec.donation.unwrap_or(0) as i128;
+    net.retain(|_, v| *v != 0);
+    Some(net)
 }
 
 fn judge_ok(sc: &Scenario, den: &Denotation, rec: &TxRec, utxos: &BTreeMap<String, Vec<Utxo>>, path: &str, o: &mut Outcome, detail: &Value) {
@@ -152,7 +163,49 @@ fn run_scenario(sc: &Scenario, src: &str, lowered: Option<&tx3_tir::model::v1bet
     if sc.prog.inputs.len() > 1 || sc.prog.collateral.is_some() {
         // several blocks draw on one party's UTxOs: which block the resolver serves with which UTxO is its
         // own choice, so the reference cannot be evaluated on "the" assignment (C03 / C04 cover selection)
-        o.class("resolve:skipped-several-blocks");
+        // what can still be judged without knowing the assignment is the ledger's balance: whatever the emitted
+        // transaction consumes (looked up in the store) plus what it mints equals what it produces plus the fee
+        let Some(tx) = lowered.cloned() else { return };
+        let all: Vec<Utxo> = utxos.values().flatten().cloned().collect();
+        let store = MemStore::new(all.clone());
+        let mut comp = compiler(&PP { network: sc.network, extra_fees: Some(0), ..PP::default() });
+        o.evals += 1;
+        match panics::catch(|| pollster::block_on(tx3_resolver::resolve_tx(AnyTir::V1Beta0(tx), &sem::args_for(sc), &mut comp, &store, 10))) {
+            Ok(Ok(ctx)) => match txdecode::decode_tx(&ctx.payload) {
+                Ok(rec) => {
+                    let mut consumed = BTreeMap::new();
+                    consumed.insert("any".to_string(), all);
+                    match balance(&rec, &consumed) {
+                        // the two open findings seen through the balance: a negative lovelace total wrapped modulo 2^64
+                        // (the imbalance is a multiple of 2^64) and negative token totals that vanished from an output
+                        // (more of a token produced than consumed); anything else is a new imbalance
+                        Some(b)
+                            if balance_net(&rec, &consumed)
+                                .map(|net| net.iter().all(|((p, n), v)| if p.is_empty() && n.is_empty() { *v % (1i128 << 64) == 0 } else { *v < 0 }))
+                                .unwrap_or(false) =>
+                        {
+                            let wrapped = balance_net(&rec, &consumed).map(|net| net.keys().any(|(p, n)| p.is_empty() && n.is_empty())).unwrap_or(false);
+                            o.class(if wrapped { "resolve:several-blocks-wrapped-negative" } else { "resolve:several-blocks-negative-asset-vanished" });
+                            o.violate(
+                                Violation::new(
+                                    if wrapped { "not-an-error|negative-lovelace-in-output|resolve" } else { "not-an-error|negative-asset-in-output|resolve" },
+                                    format!("a negative total was emitted wrapped / dropped (several input blocks): {b}"),
+                                )
+                                .with_detail(detail(&src)),
+                            );
+                        }
+                        Some(b) => {
+                            o.class("resolve:several-blocks-unbalanced");
+                            o.violate(Violation::new("unbalanced|resolve-several-blocks", b).with_detail(detail(&src)));
+                        }
+                        None => o.class("resolve:several-blocks-balanced"),
+                    }
+                }
+                Err(e) => o.violate(Violation::new("payload-undecodable|resolve", e).with_detail(detail(&src))),
+            },
+            Ok(Err(_)) => o.class("resolve:several-blocks-error"),
+            Err(_) => o.class("resolve:panic(C14)"),
+        }
         return;
     }
     let Some(tx) = lowered.cloned() else { return };
@@ -189,6 +242,64 @@ fn run_scenario(sc: &Scenario, src: &str, lowered: Option<&tx3_tir::model::v1bet
     }
 }
 
+/// Templates whose input blocks compete for the same UTxOs (a party's block and a block pinned by `ref` to one of
+/// the party's UTxOs; two blocks of one party), spending `everything - fees`: whichever way selection goes, a
+/// returned transaction must balance against the store - a UTxO counted for two blocks pays out twice.
+fn run_overlap(variant: usize, o: &mut Outcome) {
+    let first = ["gas", "zgas"][variant % 2]; // sorts before / after `locked`
+    let pin_with_from = (variant / 2) % 2 == 1;
+    let store_size = 1 + (variant / 4) % 3;
+    let many = (variant / 12) % 2 == 1;
+    let star = if many { "*" } else { "" };
+    let src = format!(
+        "party S;\nparty R;\ntx t(q: Int, pin: UtxoRef) {{\n    input{star} {first} {{\n        from: S,\n        min_amount: Ada(q),\n    }}\n    input locked {{\n{}        ref: pin,\n    }}\n    output {{\n        to: R,\n        amount: {first} + locked - fees,\n    }}\n}}\n",
+        if pin_with_from { "        from: S,\n" } else { "" }
+    );
+    let Ok(Ok(mut txs)) = panics::catch(|| crate::common::pipeline::lower_source(&src)) else {
+        o.class("overlap:template-not-lowerable");
+        return;
+    };
+    let Some(tx) = txs.remove("t") else { return };
+    let s_addr = crate::common::pipeline::base_address(1, 0);
+    let all: Vec<Utxo> = (0..store_size)
+        .map(|i| {
+            crate::common::tirb::utxo(
+                tx3_tir::model::core::UtxoRef { txid: vec![0x30 + i as u8; 32], index: i as u32 },
+                &s_addr,
+                tx3_tir::model::assets::CanonicalAssets::from_naked_amount(10_000_000 + i as i128),
+            )
+        })
+        .collect();
+    let mut args = tx3_tir::reduce::ArgMap::new();
+    args.insert("s".into(), tx3_tir::reduce::ArgValue::Address(s_addr));
+    args.insert("r".into(), tx3_tir::reduce::ArgValue::Address(crate::common::pipeline::base_address(2, 0)));
+    args.insert("q".into(), tx3_tir::reduce::ArgValue::Int(4_000_000));
+    args.insert("pin".into(), tx3_tir::reduce::ArgValue::UtxoRef(all[0].r#ref.clone()));
+    let store = MemStore::new(all.clone());
+    let mut comp = compiler(&PP { extra_fees: Some(0), ..PP::default() });
+    o.evals += 1;
+    let detail = json!({"source": src, "store": all.iter().map(|u| format!("{}#{}", hex::encode(&u.r#ref.txid[..2]), u.r#ref.index)).collect::<Vec<_>>(), "pin": "first UTxO of the store"});
+    match panics::catch(|| pollster::block_on(tx3_resolver::resolve_tx(AnyTir::V1Beta0(tx), &args, &mut comp, &store, 10))) {
+        Ok(Ok(ctx)) => match txdecode::decode_tx(&ctx.payload) {
+            Ok(rec) => {
+                let mut consumed = BTreeMap::new();
+                consumed.insert("any".to_string(), all);
+                match balance(&rec, &consumed) {
+                    Some(b) => {
+                        o.class("overlap:unbalanced");
+                        o.violate(Violation::new("unbalanced|resolve-overlapping-blocks", b).with_detail(detail));
+                    }
+                    None => o.class("overlap:balanced"),
+                }
+            }
+            Err(e) => o.violate(Violation::new("payload-undecodable|resolve", e).with_detail(detail)),
+        },
+        Ok(Err(_)) => o.class("overlap:refused"),
+        Err(_) => o.class("resolve:panic(C14)"),
+    }
+    o.key(hash64(&("overlap", variant)));
+}
+
 impl Prop for C02 {
     fn id(&self) -> &'static str {
         "C02"
@@ -199,7 +310,7 @@ impl Prop for C02 {
              x every value of the boundary alphabet ({} integers: 0, +-1, +-2, 23, 24, 255, 256, +-(2^31 +- 1), +-(2^63 +- 1), +-(2^64 +- 1), i128 extremes) as the \
              integer argument (which flows into output lovelace, token amounts, mint amounts, validity slots, metadata and datum integers, thresholds) x 5 \
              holdings of the main input (ordinary, +2^62, up to 2^63-1, up to 2^64-1, one lovelace) - through the staged pipeline with an explicit fee and \
-             through resolve_tx with a real store. Oracle: exact reference evaluation; Ok => every numeric field equals it and consumed + mint = produced + \
+             through resolve_tx with a real store (programs with several input blocks: the ledger balance of whatever is returned); 24 templates whose blocks compete for one UTxO (party block x block pinned by ref, name orders, store sizes 1..3). Oracle: exact reference evaluation; Ok => every numeric field equals it and consumed + mint = produced + \
              fee per asset class; a value that does not fit its field (negative coin / asset, zero mint, slot outside [0,2^64), metadata integer or label \
              out of range, amounts beyond 64 bits, overflow of 128-bit arithmetic, list index out of range) => the call must be Err. Non-trivial = a \
              transaction was produced and judged, or the reference demanded failure; distinct = (scenario, argument, holding).",
@@ -220,6 +331,9 @@ impl Prop for C02 {
         format!("{}|{}|{}", case["choices"], case["q"], case["extra"])
     }
     fn enumerate(&self, tier: Tier, sink: &mut Sink) {
+        for variant in 0..24usize {
+            sink.case(|| json!({"kind": "overlap", "choices": ["overlap", variant], "variant": variant, "q": "-", "extra": "-"}));
+        }
         let mut gen = |c: &mut Chooser| prog::generate(c);
         let qs = boundary_ints();
         dbx::explore(k_for(tier), &mut gen, &mut |choices, _d, sc| {
@@ -238,6 +352,10 @@ impl Prop for C02 {
     }
     fn run(&self, case: &Value) -> Outcome {
         let mut o = Outcome::default();
+        if case["kind"] == "overlap" {
+            run_overlap(case["variant"].as_u64().unwrap_or(0) as usize, &mut o);
+            return o;
+        }
         let choices: Vec<usize> = case["choices"].as_array().map(|a| a.iter().filter_map(|x| x.as_u64().map(|x| x as usize)).collect()).unwrap_or_default();
         let mut c = Chooser::new(choices.clone());
         let base = prog::generate(&mut c);
